@@ -1390,6 +1390,13 @@ fn glyphs_cycle_corpus(clean: &BTreeMap<String, bool>) -> (Vec<GCycleCase>, Vec<
         // glyphs2 Component: comma.. translate_only all -> period
         ("glyphs2/Component.glyphs", "g2-self-loop-translation(translate_only->translate_only)", vec![("name = period;", LAST, "name = translate_only;")]),
         ("glyphs2/Component.glyphs", "g2-2-cycle-transformed(comma->translate_only->comma)", vec![("name = period;", LAST, "name = comma;"), ("name = period;", 0, "name = translate_only;")]),
+        // malformed transform strings of glyphs2 components (string form of an affine: six numbers in braces)
+        ("glyphs2/Component.glyphs", "g2-malformed-transform(five numbers)", vec![("transform = \"{2, 0, 0, 1.5, 50, 50}\";", 0, "transform = \"{2, 0, 0, 1.5, 50}\";")]),
+        ("glyphs2/Component.glyphs", "g2-malformed-transform(not a number)", vec![("transform = \"{2, 0, 0, 1.5, 50, 50}\";", 0, "transform = \"{2, 0, 0, 1.5, 50, x}\";")]),
+        ("glyphs2/Component.glyphs", "g2-malformed-transform(empty string)", vec![("transform = \"{2, 0, 0, 1.5, 50, 50}\";", 0, "transform = \"\";")]),
+        ("glyphs2/Component.glyphs", "g2-malformed-transform(one character)", vec![("transform = \"{2, 0, 0, 1.5, 50, 50}\";", 0, "transform = a;")]),
+        ("glyphs2/Component.glyphs", "g2-transform-without-spaces", vec![("transform = \"{2, 0, 0, 1.5, 50, 50}\";", 0, "transform = \"{2,0,0,1.5,50,50}\";")]),
+        ("glyphs2/Component.glyphs", "g2-malformed-transform(seven numbers, NaN)", vec![("transform = \"{2, 0, 0, 1.5, 50, 50}\";", 0, "transform = \"{2, 0, 0, NaN, 50, 50, 1}\";")]),
         // glyphs2 MixedContourComponent: shape (contour); contour_and_component -> shape
         (
             "glyphs2/MixedContourComponent.glyphs",
